@@ -413,6 +413,28 @@ def processStructOuts (dimAware : Bool) (ps : Path) (params : List (String × St
   let r := handleOuts dimAware ps params kvs outsPath fs1
   (.obj r.1, r.2)
 
+/-! ## Mapped top-level calls (`Fork.postProcess`, `*ArrayType` / `*TypedMapType` cases) -/
+
+/-- `Fork.postProcess` for a top-level call mapped over an array: `_outs` is an
+array of records, record `i` goes to `outs/<i>` (plain decimal). -/
+def postArray (da : Bool) (ps : Path) (params : List (String × String × Ty)) (outs : Path) :
+    Nat → List J → FS → List J × FS
+  | _, [], fs => ([], fs)
+  | i, x :: xs, fs =>
+    let r := processStructOuts da ps params x (outs ++ [toString i]) fs
+    let rs := postArray da ps params outs (i + 1) xs r.2
+    (r.1 :: rs.1, rs.2)
+
+/-- … over a typed map: record `k` goes to `outs/<k>`; Go iterates its map in
+no particular order — the driver uses the order given. -/
+def postMap (da : Bool) (ps : Path) (params : List (String × String × Ty)) (outs : Path) :
+    List (String × J) → FS → List (String × J) × FS
+  | [], fs => ([], fs)
+  | (k, x) :: xs, fs =>
+    let r := processStructOuts da ps params x (outs ++ [k]) fs
+    let rs := postMap da ps params outs xs r.2
+    ((k, r.1) :: rs.1, rs.2)
+
 /-! ## The compile-time duplicate-name check (compile_types.go `StructType.compile`) -/
 
 /-- `StructType.compile`'s duplicate check as a decidable predicate: the
